@@ -1,4 +1,157 @@
-(* stub: executable interface of group Questrade *)
-From Coq Require Import List ZArith.
+(* Executable interface of group "questrade" (C18, C20): cases are flat lists
+   of integers, results are flat lists of integers.  Text travels as a length
+   followed by Unicode scalar values; rationals as numerator, denominator. *)
+From Coq Require Import List NArith ZArith QArith Qcanon Bool.
+From ACB Require Import Base.Outcome Base.QcExtra Base.Fit Base.Arith
+     Model.QText Model.Pages Model.Fmv Spec.FmvTable.
 Import ListNotations.
-Definition dispatch (l : list Z) : list Z := [(-9)%Z].
+Local Open Scope Z_scope.
+
+Definition P (T : Type) : Type := list Z -> option (T * list Z).
+Definition pret {T} (v : T) : P T := fun l => Some (v, l).
+Definition pbind {T U} (p : P T) (f : T -> P U) : P U :=
+  fun l => match p l with Some (v, r) => f v r | None => None end.
+Notation "x <~ p ;; k" := (pbind p (fun x => k)) (at level 100, p at next level, right associativity).
+
+Definition pZ : P Z := fun l => match l with z :: r => Some (z, r) | [] => None end.
+Definition pN : P N := z <~ pZ ;; pret (Z.to_N z).
+Definition pbool : P bool := z <~ pZ ;; pret (negb (z =? 0)).
+Definition pQ : P Qc := n <~ pZ ;; d <~ pZ ;; pret (Qcfrac n (Z.to_pos d)).
+
+Fixpoint prep {T} (n : nat) (p : P T) : P (list T) :=
+  match n with
+  | O => pret []
+  | S k => x <~ p ;; r <~ prep k p ;; pret (x :: r)
+  end.
+Definition plist {T} (p : P T) : P (list T) :=
+  fun l => match l with
+           | z :: r => prep (Z.to_nat z) p r
+           | [] => None
+           end.
+Definition ptext : P text := plist pN.
+Definition popt {T} (p : P T) : P (option T) :=
+  b <~ pbool ;; (if b then x <~ p ;; pret (Some x) else pret None).
+
+(* ---- output ---- *)
+Definition oQ (q : Qc) : list Z := [Qnum (this q); Zpos (Qden (this q))].
+Definition obool (b : bool) : Z := if b then 1 else 0.
+Definition otext (t : text) : list Z := Z.of_nat (length t) :: map Z.of_N t.
+Definition olist {T} (f : T -> list Z) (l : list T) : list Z :=
+  Z.of_nat (length l) :: flat_map f l.
+Definition oNs (l : list N) : list Z := olist (fun p => [Z.of_N p]) l.
+
+Definition orej (r : rej) : Z :=
+  match r with
+  | RejOther n => Z.of_N n
+  | RejParse c => 100000 + Z.of_N c
+  | _ => 99999
+  end.
+Definition opanic (p : panic) : Z :=
+  match p with
+  | PanicOverflow => 1 | PanicDivZero => 2
+  | PanicConstraint s => 1000 + Z.of_N s | PanicAssert s => 2000 + Z.of_N s
+  | PanicMissing s => 3000 + Z.of_N s
+  end.
+(* res: 0 payload | 1 class | 2 site *)
+Definition ores {T} (f : T -> list Z) (r : res T) : list Z :=
+  match r with
+  | Ok v => 0 :: f v
+  | Rej e => [1; orej e]
+  | Panic p => [2; opanic p]
+  end.
+
+(* ===== C20 ===== *)
+Definition run_pages : P (list Z) :=
+  n <~ pN ;; hints <~ plist (plist pN) ;;
+  pret (olist oNs (safe_page_chunks n hints)).
+
+Definition oend (e : iter_end) : list Z :=
+  match e with IterDone => [0; 0] | IterError => [1; 0] | IterPanic s => [2; Z.of_N s] end.
+
+(* iterator: policy (0 = resize always, 1 = grow only), page count, whether to
+   sanitise the groups first, groups, pages whose extraction fails *)
+Definition run_iter_case : P (list Z) :=
+  pol <~ pZ ;; n <~ pN ;; safe <~ pbool ;; groups <~ plist (plist pN) ;; fail <~ plist pN ;;
+  let prov := fun p => if page_ok n p && negb (memN p fail) then Some p else None in
+  let gs := if safe then safe_page_chunks n groups else groups in
+  let '(ys, reqs, e) := run_iter N prov (if pol =? 0 then ResizeAlways else ResizeGrow) [] gs in
+  pret (olist oNs gs ++ olist (fun y => [Z.of_N (fst y); Z.of_N (snd y)]) ys
+        ++ olist oNs reqs ++ oend e).
+
+Definition ocaps (o : option (list text)) : list Z :=
+  match o with
+  | None => [0]
+  | Some l => 1 :: olist otext l
+  end.
+
+Definition run_regex : P (list Z) :=
+  which <~ pZ ;; s <~ ptext ;;
+  pret (match which with
+        | 0 => ocaps (option_map (fun c => [c]) (match_first_row s))
+        | 1 => ocaps (option_map (fun '(d, a, f) => [d; a; f]) (match_data s))
+        | _ => ocaps (option_map (fun c => [c]) (match_total s))
+        end).
+
+Definition ofmv (f : fmv) : list Z := otext (f_desc f) ++ oQ (f_alloc f) ++ oQ (f_fmv f).
+
+Definition run_page : P (list Z) :=
+  s <~ ptext ;;
+  pret (ores (fun '(fs, t) => olist ofmv fs ++ oQ t) (parse_page s)).
+
+Definition run_stmt : P (list Z) :=
+  pages <~ plist ptext ;;
+  pret (ores (fun st => let '(y, m, d) := st_month st in
+                        [Z.of_N y; Z.of_N m; Z.of_N d] ++ olist ofmv (st_fmvs st) ++ oQ (st_total st))
+             (parse_statement_text pages)).
+
+(* sanitised groups -> iterator -> parse_statement_text, as parse_statement does *)
+Definition run_stmt_iter : P (list Z) :=
+  pages <~ plist ptext ;; hints <~ plist (plist pN) ;;
+  let n := N.of_nat (length pages) in
+  let prov := fun p => if page_ok n p then nth_error pages (N.to_nat p - 1) else None in
+  let gs := safe_page_chunks n hints in
+  let '(ys, reqs, e) := run_iter text prov ResizeGrow [] gs in
+  pret (match e with
+        | IterPanic s => [2; 3000 + Z.of_N s]
+        | _ => ores (fun st => let '(y, m, d) := st_month st in
+                        [Z.of_N y; Z.of_N m; Z.of_N d] ++ olist ofmv (st_fmvs st) ++ oQ (st_total st))
+                    (parse_statement_text (map snd ys))
+        end).
+
+Definition psec : P sec_lay :=
+  ls <~ plist ptext ;; a <~ ptext ;; f <~ ptext ;; own <~ pbool ;; bl <~ pbool ;;
+  pret {| sl_lines := ls; sl_alloc := a; sl_fmv := f; sl_own := own; sl_blank := bl |}.
+Definition ptable : P table_lay :=
+  ind <~ pN ;; pre <~ plist ptext ;; h <~ ptext ;; secs <~ plist psec ;; tot <~ ptext ;; t00 <~ pbool ;;
+  pret {| tl_indent := N.to_nat ind; tl_pre := pre; tl_header := h; tl_secs := secs;
+          tl_total := tot; tl_total00 := t00 |}.
+
+(* a laid-out table: rendering, class predicates, expected content, and the
+   parse of the rendering followed by [post] *)
+Definition run_table : P (list Z) :=
+  t <~ ptable ;; post <~ ptext ;;
+  let '(fs, tot) := content t in
+  pret (otext (render_table t) ++ [obool (layout_ok t); obool (unambiguous t)]
+        ++ olist ofmv fs ++ oQ tot
+        ++ ores (fun '(fs, t) => olist ofmv fs ++ oQ t) (parse_page (render_table t ++ post))).
+
+Definition dispatch (l : list Z) : list Z :=
+  match l with
+  | mode :: r =>
+      let p := match mode with
+               | 20 => run_pages
+               | 21 => run_iter_case
+               | 22 => run_regex
+               | 23 => run_page
+               | 24 => run_stmt
+               | 25 => run_stmt_iter
+               | 26 => run_table
+               | _ => fun _ => None
+               end in
+      match p r with
+      | Some (out, []) => 1 :: out
+      | Some (_, _ :: _) => [-1]       (* trailing input *)
+      | None => [-2]                   (* malformed input *)
+      end
+  | [] => [-3]
+  end.
